@@ -32,6 +32,19 @@ func init() {
 	subcommands["c01-write"] = cmdC01Write
 	subcommands["c01-tsv-codec"] = cmdC01TSVCodec
 	subcommands["c01-read"] = cmdC01Read
+	subcommands["c01-width"] = cmdC01Width
+}
+
+// c01-width: hex per line -> lib.DisplayWidth of the string (the width the XTAB/PPRINT writers align on)
+func cmdC01Width(args []string, in *bufio.Scanner, out *bufio.Writer) {
+	for in.Scan() {
+		b, err := hex.DecodeString(in.Text())
+		if err != nil {
+			fmt.Fprintln(out, "badhex")
+			continue
+		}
+		fmt.Fprintln(out, lib.DisplayWidth(string(b)))
+	}
 }
 
 // c01-read: {"args": ["--icsv", ...], "text": "<hex>"} -> {"recs": [[["hexkey","hexvalue"],...],...], "err": ""}
